@@ -264,7 +264,13 @@ def r7(ctx):
         ctx.check(nm, look == ["IndexMap::get_index_mut(self.0, key.0)"], "positional lookup by the given index", got=look, key="lookup")
 
 
+def r3(ctx):
+    # the round trip index -> name -> index needs every instrument / asset to have exactly one index: builder discipline (shared with C11)
+    common_idx.idx_r3(ctx)
+
+
 RULES = [
+    ("IDX.R3", "builder: sort -> dedup -> enumerate; key = position (one index per distinct entity)", r3),
     ("R7", "engine routing: account events select asset / instrument state by their own key", r7),
     ("IDX.R1", "positional use of a global index only on tables aligned with IndexedInstruments", r1),
     ("IDX.R2", "aligned tables: reviewed constructors, order/length-preserving fill chain, never shifted", r2),
